@@ -288,11 +288,17 @@ func (rule *RuleRunnerLabel) tryToGetLabelsInMatrix(label *String, m *Matrix) []
 }
 
 func (rule *RuleRunnerLabel) checkConflict(comp runnerOSCompat, label *String) bool {
+	// When multiple labels conflict with the label, report the one at the smallest position. Otherwise
+	// the reported label depends on the iteration order of the map.
+	var conflict *String
 	for c, l := range rule.compats {
-		if c&comp == 0 {
-			rule.Errorf(label.Pos, "label %q conflicts with label %q defined at %s. note: to run your job on each workers, use matrix", label.Value, l.Value, l.Pos)
-			return false
+		if c&comp == 0 && (conflict == nil || l.Pos.IsBefore(conflict.Pos)) {
+			conflict = l
 		}
+	}
+	if conflict != nil {
+		rule.Errorf(label.Pos, "label %q conflicts with label %q defined at %s. note: to run your job on each workers, use matrix", label.Value, conflict.Value, conflict.Pos)
+		return false
 	}
 	return true
 }
